@@ -17,6 +17,7 @@ import Driver.BlockEnc
 import Driver.CStream
 import Driver.Wear
 import Driver.SeqProd
+import Driver.WindowUpd
 
 def main (args : List String) : IO UInt32 := do
   match args with
@@ -39,4 +40,5 @@ def main (args : List String) : IO UInt32 := do
   | ["cstream"] => Driver.CStream.main; return 0
   | ["wear"] => Driver.Wear.main; return 0
   | ["seqprod"] => Driver.SeqProd.main; return 0
+  | ["windowupd"] => Driver.WindowUpd.main; return 0
   | _ => IO.eprintln "usage: zvdriver <model>"; return 2
